@@ -3,6 +3,7 @@ package c15
 import (
 	"encoding/json"
 	"fmt"
+	"regexp"
 	"strings"
 	"testing"
 
@@ -20,6 +21,7 @@ import (
 	rvestingtypes "github.com/teleport-network/teleport/x/rvesting/types"
 	clienttypes "github.com/teleport-network/teleport/x/xibc/core/client/types"
 	"github.com/teleport-network/teleport/x/xibc/core/host"
+	"github.com/teleport-network/teleport/x/xibc/exported"
 	packettypes "github.com/teleport-network/teleport/x/xibc/core/packet/types"
 	xibcmodule "github.com/teleport-network/teleport/x/xibc/module"
 	xibctypes "github.com/teleport-network/teleport/x/xibc/types"
@@ -40,7 +42,7 @@ func (g *tagger) clientGenesis(names []string, native string, withRelayers bool)
 		kind := rapid.SampledFrom(clientKinds).Draw(g.t, "gen.clientKind")
 		cs := g.clientState(kind)
 		any := mustAny(cs.(proto.Message))
-		if g.edge("gen.clientAny", 3) {
+		if g.edge("gen.clientAny", 2) {
 			switch g.pick("gen.clientAny.edge", 2) {
 			case 0:
 				any = nil
@@ -52,18 +54,23 @@ func (g *tagger) clientGenesis(names []string, native string, withRelayers bool)
 		}
 		gs.Clients = append(gs.Clients, clienttypes.IdentifiedClientState{ChainName: name, ClientState: any})
 		nCons := rapid.IntRange(0, 3).Draw(g.t, "gen.nCons")
+		if kind == exported.ETH && !chance(g.t, "gen.ethCons", 8) {
+			// constructive: on the pinned tree ETH ConsensusState.ClientType() answers "bsc", so genesis validation rejects every
+			// ETH client that comes with consensus states (the type-agreement check); keep most ETH clients without them
+			nCons = 0
+		}
 		var cons []clienttypes.ConsensusStateWithHeight
 		for i := 0; i < nCons; i++ {
 			ck := kind
-			if g.edge("gen.consKind", 6) {
+			if g.edge("gen.consKind", 3) {
 				ck = rapid.SampledFrom(clientKinds).Draw(g.t, "gen.consOther")
 				if ck != kind {
 					g.tag("gen.cons=otherType")
 				}
 			}
-			h := g.height("gen.consHeight", clienttypes.NewHeight(0, uint64(100+i)), 12)
+			h := g.height("gen.consHeight", clienttypes.NewHeight(0, uint64(100+i)), 15, false)
 			var cAny *codectypes.Any = mustAny(g.consState(ck).(proto.Message))
-			if g.edge("gen.consAny", 3) {
+			if g.edge("gen.consAny", 1) {
 				cAny = nil
 				g.tag("gen.cons=nilAny")
 			}
@@ -77,20 +84,20 @@ func (g *tagger) clientGenesis(names []string, native string, withRelayers bool)
 		for i := 0; i < nMeta; i++ {
 			keys := []string{"recentSingers/0-5", "recentSingers", "recentSingers/x", "pendingValidators", host.KeyClientState, "consensusStates/\x00\x00\x00\x00\x00\x00\x00\x00\x00\x00\x00\x00\x00\x00\x00\x05/processedTime",
 				"consensusStates/short", "iterateConsensusStates/x", "ethHeaderIndex/x", "ethRootMain/x", "consensusStates/\x00\x00\x00\x00\x00\x00\x00\x00\x00\x00\x00\x00\x00\x00\x00\x05", ""}
-			ki := rapid.IntRange(0, len(keys)-1).Draw(g.t, "gen.metaKey")
+			ki := g.pick2("gen.metaKey", len(keys)-1, 1)
 			if (ki == 1 || ki == 6) && listed("bsc-upgrade-malformed-store-key") && kind == "bsc" {
 				g.excluded["bsc-upgrade-malformed-store-key"]++
 				ki = 0
 			}
 			g.tag("gen.metaKey=" + []string{"signer", "signerNoSlash", "signerBadHeight", "pendingValidators", "clientStateKey", "processedTime", "consShort", "iterKey", "ethIndex", "ethRoot", "consStateKey", "empty"}[ki])
-			val := g.edgeBytes("gen.metaValue", 8, 12)
+			val := g.edgeBytes("gen.metaValue", 8, 6)
 			md = append(md, clienttypes.GenesisMetadata{Key: []byte(keys[ki]), Value: val})
 		}
 		if nMeta > 0 {
 			gs.ClientsMetadata = append(gs.ClientsMetadata, clienttypes.IdentifiedGenesisMetadata{ChainName: name, Metadata: md})
 		}
 	}
-	if g.edge("gen.orphan", 4) {
+	if g.edge("gen.orphan", 2) {
 		gs.ClientsConsensus = append(gs.ClientsConsensus, clienttypes.ClientConsensusStates{ChainName: "orphan-chain"})
 		g.tag("gen.cons=orphanChain")
 	}
@@ -129,7 +136,7 @@ func (g *tagger) clientGenesis(names []string, native string, withRelayers bool)
 	}
 	if g.edge("gen.native", 8) {
 		ns := []string{"other-chain", strings.Repeat("n", 64), "ab", "", "a/b"}
-		i := g.pick("gen.native.edge", len(ns))
+		i := g.pick2("gen.native.edge", 2, 3)
 		gs.NativeChainName = ns[i]
 		g.tag("gen.native=" + []string{"other", "len64", "tooShort", "empty", "slash"}[i])
 	}
@@ -138,21 +145,23 @@ func (g *tagger) clientGenesis(names []string, native string, withRelayers bool)
 
 func (g *tagger) packetState(name string) packettypes.PacketState {
 	ps := packettypes.PacketState{SrcChain: "teleport_9000-1", DstChain: "bsc-test", Sequence: uint64(rapid.IntRange(1, 5).Draw(g.t, name+".seq")), Data: g.bytesN(name+".data", 32)}
-	if g.edge(name+".seq", 15) {
-		ps.Sequence = g.edgeU64(name+".seq", 1, 100)
+	if g.edge(name+".seq", 10) {
+		ss := []uint64{^uint64(0), 1 << 63, 1 << 32, 0}
+		ps.Sequence = ss[g.pick2(name+".seq.edge", 3, 1)]
+		g.tag(name + ".seq=" + u64class(ps.Sequence))
 	}
-	if g.edge(name+".data", 20) {
+	if g.edge(name+".data", 8) {
 		ps.Data = g.edgeBytes(name+".data", 32, 100)
 	}
-	if g.edge(name+".chains", 15) {
-		cs := []string{"clientState", strings.Repeat("n", 64), "ab", "", "a/b", "sequences"}
-		i := g.pick(name+".chains.edge", len(cs))
+	if g.edge(name+".chains", 12) {
+		cs := []string{"clientState", strings.Repeat("n", 64), "sequences", "ab", "", "a/b"}
+		i := g.pick2(name+".chains.edge", 3, 3)
 		if rapid.Bool().Draw(g.t, name+".srcOrDst") {
 			ps.SrcChain = cs[i]
 		} else {
 			ps.DstChain = cs[i]
 		}
-		g.tag(name + ".chain=" + []string{"keyword", "len64", "tooShort", "empty", "slash", "keyword"}[i])
+		g.tag(name + ".chain=" + []string{"keyword", "len64", "keyword", "tooShort", "empty", "slash"}[i])
 	}
 	return ps
 }
@@ -183,30 +192,43 @@ func (g *tagger) aggregateGenesis(w *world) aggregatetypes.GenesisState {
 	gs := aggregatetypes.GenesisState{Params: aggregatetypes.Params{EnableAggregate: rapid.Bool().Draw(g.t, "agg.enable"), EnableEVMHook: rapid.Bool().Draw(g.t, "agg.hook")}}
 	denoms := []string{"acoin", "bcoin", "nosupply", "aggregate/" + w.tokFree.Hex(), "ibc/27394FB092D2ECCD56123C74F36E4C1F926001CEADA9CA97EA622B25F41E5EB2", strings.Repeat("d", 128)}
 	n := rapid.IntRange(0, 3).Draw(g.t, "agg.nPairs")
+	first := rapid.IntRange(0, len(denoms)-1).Draw(g.t, "agg.firstDenom")
+	seenAddr := map[string]bool{}
 	for i := 0; i < n; i++ {
 		p := aggregatetypes.TokenPair{ERC20Address: g.hexAddress("agg.pair.erc20", w), Enabled: rapid.Bool().Draw(g.t, "agg.pair.enabled"),
 			ContractOwner: aggregatetypes.Owner(rapid.IntRange(0, 2).Draw(g.t, "agg.pair.owner"))}
+		if seenAddr[strings.ToLower(p.ERC20Address)] && !g.edge("agg.pair.duplicateERC20", 10) {
+			// constructive: distinct contracts unless the duplicate is drawn on purpose (negative control)
+			p.ERC20Address = kit.NewAccount([]byte{'p', byte(i)}).Addr.Hex()
+		}
+		seenAddr[strings.ToLower(p.ERC20Address)] = true
 		nd := rapid.IntRange(1, 3).Draw(g.t, "agg.pair.nDenoms")
-		for j := 0; j < nd; j++ {
+		// constructive: the first denominations of the pairs are distinct (a repeated one is rejected by Validate)
+		p.Denoms = append(p.Denoms, denoms[(first+i)%len(denoms)])
+		if i > 0 && g.edge("agg.pair.duplicateFirstDenom", 8) {
+			p.Denoms[0] = denoms[first]
+			g.tag("agg.pair.denoms=duplicateFirst")
+		}
+		for j := 1; j < nd; j++ {
 			p.Denoms = append(p.Denoms, rapid.SampledFrom(denoms).Draw(g.t, "agg.pair.denom"))
 		}
 		if nd > 1 {
 			g.tag("agg.pair.denoms=several")
 		}
 		if g.edge("agg.pair.shape", 20) {
-			switch g.pick("agg.pair.shape.edge", 4) {
+			switch g.pick2("agg.pair.shape.edge", 2, 2) {
 			case 0:
-				p.Denoms = nil
-				g.tag("agg.pair.denoms=none")
-			case 1:
-				p.Denoms = append(p.Denoms, "ab")
-				g.tag("agg.pair.denoms=invalidTail")
-			case 2:
 				p.ContractOwner = aggregatetypes.Owner(99)
 				g.tag("agg.pair.owner=99")
-			default:
+			case 1:
 				p.Denoms = append(p.Denoms, p.Denoms[0])
 				g.tag("agg.pair.denoms=duplicateWithin")
+			case 2:
+				p.Denoms = nil
+				g.tag("agg.pair.denoms=none")
+			default:
+				p.Denoms = append(p.Denoms, "ab")
+				g.tag("agg.pair.denoms=invalidTail")
 			}
 		}
 		gs.TokenPairs = append(gs.TokenPairs, p)
@@ -334,6 +356,34 @@ func rvestingRewardInvalid(cs sdk.Coins) bool {
 	return false
 }
 
+var digits = regexp.MustCompile(`[0-9]+`)
+
+// reasonClass abbreviates a validation error to a coarse class (for the label histogram only).
+func reasonClass(err error) string {
+	s := err.Error()
+	for _, cut := range []string{"{", "[", "\""} {
+		if i := strings.Index(s, cut); i > 12 {
+			s = s[:i]
+		}
+	}
+	if i := strings.Index(s, ":"); i > 12 {
+		s = s[:i]
+	}
+	w := strings.Fields(digits.ReplaceAllString(s, "N"))
+	if len(w) > 5 {
+		w = w[:5]
+	}
+	return strings.Join(w, " ")
+}
+
+// xibcGenesisJSON renders an xibc genesis (client part given, packet part empty).
+func xibcGenesisJSON(w *world, cg clienttypes.GenesisState) []byte {
+	gs := xibctypes.GenesisState{ClientGenesis: cg, PacketGenesis: packettypes.DefaultGenesisState()}
+	bz, err := w.c.App.AppCodec().MarshalJSON(&gs)
+	kit.Must(err, "marshal xibc genesis")
+	return bz
+}
+
 type genesisLog struct {
 	Module  string   `json:"module"`
 	Tags    []string `json:"boundary_fields"`
@@ -347,6 +397,7 @@ func runGenesisCase(t *rapid.T, r *rec.Recorder) {
 	a := w.c.App
 	cdc := a.AppCodec()
 	g := newTagger(t)
+	g.rejPct = 5 // a genesis state is a conjunction of many values: keep the negative controls rare so that well over half pass
 	module := rapid.SampledFrom([]string{host.ModuleName, host.ModuleName, aggregatetypes.ModuleName, rvestingtypes.ModuleName}).Draw(t, "module")
 	var msg proto.Message
 	inconsistent := false
@@ -354,7 +405,7 @@ func runGenesisCase(t *rapid.T, r *rec.Recorder) {
 	case host.ModuleName:
 		var names []string
 		for _, n := range chainNames[:6] {
-			if chance(t, "client?", 35) {
+			if chance(t, "client?", 25) {
 				names = append(names, n)
 			}
 		}
@@ -398,6 +449,7 @@ func runGenesisCase(t *rapid.T, r *rec.Recorder) {
 	}
 	if err != nil {
 		r.Label("filter:rejected:" + module)
+		r.Label("reject-reason:" + module + ":" + reasonClass(err))
 		r.Case("", false, nil)
 		return
 	}
